@@ -33,6 +33,9 @@ DIMPOOL = {
     "s": dict(letter="s", name="scenario", items=["base"], dtype="str"),         # single item
     "y": dict(letter="y", name="vintage", items=[2020], dtype="int"),            # single integer item
     "g": dict(letter="g", name="good", items=["car", "bus", "bike", "van"], dtype="str"),
+    # the first and the last year that an unnamed integer index may hold to be taken for years (1700 .. 2300)
+    "Y": dict(letter="t", name="time", items=[1700, 2000, 2300], dtype="int"),
+    "A": dict(letter="a", name="age", items=[0, 1, 2], dtype="int"),       # small integers: values can coincide with items
 }
 
 
